@@ -40,6 +40,8 @@ CHECKS = {
          "all put sequences up to depth 3..4 / 4..6 per store over epochs {0,1,127,128,255,256,257,65535,65536} (encodings that are prefixes of one another), 2 containers, 2-3 nodes/peers/owners, 2 values, configuration keys {'',a,ab,abc,b}; after every step every getter and listing for every (epoch, container, node, owner, key) combination; estimation access rules (node of the previous map, witnessed, existing container), audit access rules (Inner Ring member, witnessed), cleanup deltas 3/4 on put and on tick incl. a raw storage scan; an extra list element is tolerated only when explained by the listed epoch-prefix finding", "4.20"),
  "C03": ("chainmc", "exhaustive grid: every method of the eleven manifests compiled from the tree x eight signer sets x committee sizes {1,3,4,7}, each case executed from one prepared base state, full storage/notification/token diff oracle",
          "2752 cases: ~75 non-safe method rows (a hand-written table gives the argument vector and the documented witness requirement; manifest methods without a row are reported as uncovered, never failed) x {stranger, one Alphabet member, Alphabet 2/3+1, committee majority, named key, named key+Alphabet, named key+majority, floor(2n/3) single members}: insufficient witnesses => empty diff on all contracts, no notification, no GAS/NEO/NEOFS movement; sufficient => HALT (update: past authorisation, stopped by the version gate); ~90 safe-method rows with all witnesses => empty diff; verify of Proxy/Alphabet/Processing accepts exactly the documented multi-signatures", "4.3"),
+ "C15": ("chainmc", "exhaustive enumeration of the finite artefact set (11 scripts, manifests, bindings, deployment order and its transpositions, versions); where a shipped script differs from a fresh compilation, dual-world lock-step exploration (same contract hash, shipped vs fresh executable) of the property drivers plus a method-table x integer-boundary differential",
+         "byte comparison of every embedded script/token list/manifest (read through contracts.GetFS/GetMain) with a fresh library compilation; on any script difference the verdict comes from execution: every C03 method row x integer-argument boundary values and the quick BFS explorations of the drivers that involve the contract are run in two worlds and every transition's outcome and successor state must coincide; GetFS() order deployed on a fresh chain (NNS-resolved dependencies) plus all adjacent transpositions; version() of all embedded and fresh contracts == VERSION; bindings regenerated byte-for-byte and every invoked method/arity matched against the manifest ABI by an independent go/ast pass", "4.15"),
 }
 
 NOT_YET = "check not built yet in this revision (work in progress; see DESIGN.md section 10)"
